@@ -224,6 +224,12 @@ impl Core {
             .tasks
             .remove(task_id)
             .expect("Trying to remove non-existent task");
+        if let TaskRuntimeState::Retracting { .. } = &task.state {
+            // A retracting task without a redirect is still in the ready queue
+            self.task_queues
+                .get_mut(task.resource_rq_id)
+                .remove(task_id, task.priority());
+        }
         if let TaskRuntimeState::Waiting { unfinished_deps } = &task.state {
             self.task_queues
                 .get_mut(task.resource_rq_id)
